@@ -363,6 +363,7 @@ JudgeNew(e) ==
       \* the command line itself must be refused: bad prefix, both selectors, bad path, unsupported length,
       \* a vanity account index for which no default path exists
       mustRefuse == pre.c = "reject" \/ (c.vindex # "" /\ c.vpath # "") \/ path.c = "reject" \/ ~ConcreteSupported(cfg)
+                    \/ ~LanguageOk(c)
                     \/ (c.prefix # "" /\ ~ixOk)
       reqs == o.reqs
       \* fold of the environment's answers
